@@ -23,6 +23,8 @@ structure Mon where
   fwds : List MFwd := []
   qlen : List Nat := []                -- last seen reply-queue length per client
   slots : List (String × List (Nat × Nat)) := []   -- per server: (slot, tries) as last seen
+  tx : List (String × Bytes × Nat × Nat) := []      -- (server, packet, time of last transmission, transmissions so far)
+  now : Nat := 0
 
 def sections (out : String) : List String := (out.splitOn " | ")
 
@@ -155,8 +157,17 @@ def monOp (m : Mon) (op : String) (args : List String) (impl : List String) : Mo
       let sends := (headToks out).filterMap fun t => match t.splitOn ":" with
         | ["send", s, h] => (ofHex h).map fun b => (s, b)
         | _ => none
+      let early := sends.any fun (_, b) => m.tx.any fun (s', b', t, _) => s' = name && b' == b && m.now < t + sc.retryInterval
+      let tooMany := sends.any fun (_, b) => codeOf b != 12 && m.tx.any fun (s', b', _, n) => s' = name && b' == b && n ≥ sc.retryCount + 1
+      let probeTwice := sends.any fun (_, b) => codeOf b == 12 && m.tx.any fun (s', b', _, _) => s' = name && b' == b
+      let m := { m with tx := (sends.map fun (_, b) =>
+                    (name, b, m.now, 1 + ((m.tx.find? fun (s', b', _, _) => s' = name && b' == b).map (·.2.2.2)).getD 0)) ++
+                  (m.tx.filter fun (s', b', _, _) => !(sends.any fun (_, b) => s' = name && b' == b)) }
       let verdict :=
-        if sends.any fun (s, _) => s ≠ name then "bad C12:sent-on-another-server"
+        if early then "bad C12:retransmitted-sooner-than-RetryInterval"
+        else if tooMany then "bad C12:transmitted-more-than-RetryCount+1-times"
+        else if probeTwice then "bad C12:status-server-probe-retransmitted"
+        else if sends.any fun (s, _) => s ≠ name then "bad C12:sent-on-another-server"
         else if sends.any fun (_, b) => !requestOk H sc.secret b then "bad C06:transmitted-request-malformed-or-unauthenticated"
         else if sends.any fun (_, b) => codeOf b != 12 && !(m.fwds.any fun f => f.srv = name && f.pkt == b) then
           "bad C12:transmitted-something-never-queued"
@@ -226,9 +237,9 @@ def monOp (m : Mon) (op : String) (args : List String) (impl : List String) : Mo
         else if (res.attrs.filter fun a => !touched a.t) != (inp.filter fun a => !touched a.t) then (m, "bad C01:untouched-attributes-not-preserved-by-rewrite")
         else (m, "ok")
     | _, _ => (m, if (headToks out).head? == some "rv=0" then "ok" else "bad-op")
-  | "tick", _ => (m, "ok")
+  | "tick", [n] => ({ m with now := m.now + (n.toNat?).getD 0 }, "ok")
   | "radput", _ => (m, "ok")
-  | "reset", _ => (resync m out, "ok")
+  | "reset", [name] => (resync { m with tx := m.tx.filter (·.1 ≠ name) } out, "ok")   -- a reset lets everything be sent again
   | "srvstate", _ => (resync m out, "ok")
   | "rmclient", [k] =>
     match k.toNat? with
